@@ -410,6 +410,7 @@ class MemTransport(AsyncStreamTransport):
         self.peer_silent_eof = True           # nothing more to come from the peer => EOF (never block forever)
         self.writable = asyncio.Event()       # cleared = back-pressure: send_all() parks until it is set again
         self.writable.set()
+        self.send_pieces = 0                  # > 0: send_all is NOT atomic: it delivers pieces of this size and yields in between
 
     # -- AsyncBaseTransport
     def backend(self):
@@ -468,9 +469,20 @@ class MemTransport(AsyncStreamTransport):
             if self.closed or (self.send_fail_at is not None and idx >= self.send_fail_at):
                 self.rec.log("sent", tid, 0)
                 raise ConnectionResetError(104, "scripted reset")
-            self.peer.feed(data)
-            self.stream += self.peer.pump()
-            self.data_event.set()
+            if self.send_pieces:
+                try:
+                    for off in range(0, len(data), self.send_pieces):
+                        self.peer.feed(data[off:off + self.send_pieces])
+                        self.stream += self.peer.pump()
+                        self.data_event.set()
+                        await asyncio.sleep(0)
+                except asyncio.CancelledError:
+                    self.rec.log("cancel", tid)
+                    raise
+            else:
+                self.peer.feed(data)
+                self.stream += self.peer.pump()
+                self.data_event.set()
             self.rec.log("sent", tid, 1)
         finally:
             self.sending -= 1
@@ -623,6 +635,22 @@ class patched_tls_wrap:
     def __exit__(self, *a):
         self.ssl_patch.__exit__(*a)
         tls_mod.AsyncTLSStreamTransport.wrap = self.saved
+
+
+class CountingTask(asyncio.tasks._PyTask):
+    """A task that counts its resumptions and delivers a cancellation at the k-th one, i.e. at whatever suspension
+    point the coroutine is parked on at that moment (any await: locks, transport calls, checkpoints ...)."""
+
+    def __init__(self, coro, *, loop, cancel_at=0):
+        self.nsteps = 0
+        self.cancel_at = cancel_at
+        super().__init__(coro, loop=loop)
+
+    def _Task__step(self, exc=None):
+        self.nsteps += 1
+        if self.cancel_at and self.nsteps == self.cancel_at and not self.done():
+            self._must_cancel = True
+        return super()._Task__step(exc)
 
 
 def new_backend():
